@@ -36,6 +36,9 @@ OPTION_SITES = [
     ("source", [False, True]),
     ("externalize", [False, True]),
     ("max_frontpage_items", [10, 1]),
+    # how the project addresses its output directory: default ./doc, through a `..` component, through a symlinked
+    # directory, several levels deep
+    ("outdir", ["default", "dotdot", "symlink", "nested"]),
 ]
 
 
@@ -65,7 +68,19 @@ def build_and_check(st: Stats, shape, opts, pages, stratum, feats, move=False):
     o = dict(opts)
     if pages is not None:
         o["page_dir"] = "pages"
-    r = fordrun.build(files, o, stage="write", proj_body="Project front page text.\n")
+    root = None
+    outdir = o.pop("outdir", "default")
+    if outdir == "dotdot":
+        o["output_dir"] = "cfg/../doc"
+    elif outdir == "nested":
+        o["output_dir"] = "build/out/doc"
+    elif outdir == "symlink":
+        import os
+        root = fordrun.new_root()
+        (root / "real").mkdir()
+        os.symlink(root / "real", root / "lnk")
+        o["output_dir"] = "lnk/doc"
+    r = fordrun.build(files, o, stage="write", proj_body="Project front page text.\n", root=root)
     st.evaluations += 1
     inp = dict(shape=shape, options={k: v for k, v in opts.items()}, pages=pages)
     try:
@@ -86,7 +101,7 @@ def build_and_check(st: Stats, shape, opts, pages, stratum, feats, move=False):
             bad += 1
             st.violation("broken-link", stratum, dict(feats, link_class=cls, page=page.split("/")[0]), inp,
                          dict(page=page, tag=tag, attr=attr, url=url, problem=prob), "relative URL resolving to an existing file / id")
-        abs_mentions = [f for f in site.mentions(str(r.out)) if not f.startswith("src/")]
+        abs_mentions = [f for f in site.mentions(str(r.out)) + site.mentions(str(r.root)) if not f.startswith("src/")]
         if abs_mentions:
             bad += 1
             st.violation("absolute-output-path-in-file", stratum, dict(feats, link_class="abs-path:" + abs_mentions[0].split("/")[0]), inp,
